@@ -56,12 +56,13 @@ GenDescs == {GenD1, GenD2}
 GenDescs3 == {GenD1, GenD2, GenD3}
 (* identifier classes: known, shorthand with / without default accessible, custom name,   *)
 (* command, unknown parameter, unknown module                                            *)
-GIdentsQ == {<<"m1", "value">>, <<"m1", "">>, <<"m2", "">>, <<"m2", "x">>, <<"m1", "cmd">>, <<"zz", "value">>}
+GIdentsQ == {<<"m1", "value">>, <<"m1", "">>, <<"m2", "x">>, <<"m1", "cmd">>, <<"zz", "value">>}
+GIdentsM0 == GIdentsQ \cup {<<"m2", "">>}
 GIdentsC == {<<"m1", "value">>}                      \* callback-focused generation
 GLevelsC == {NodeL, <<"m1", "">>, <<"m1", "value">>}
 GLevelsE == {NodeL}                                   \* error class sweep
 GLevelsQ == {NodeL, <<"m1", "">>, <<"m1", "value">>, <<"m2", "x">>}
-GIdentsM == GIdentsQ \cup {<<"m2", "target">>, <<"m1", "target">>, <<"m2", "value">>}
+GIdentsM == GIdentsM0 \cup {<<"m2", "target">>, <<"m1", "target">>, <<"m2", "value">>}
 GIdentsT == Idents
 GLevelsT == Levels
 =============================================================================
